@@ -51,6 +51,7 @@ def _path_exprs(ctx, f):
 
 
 def run(ctx):
+    C.require_locals(ctx, ctx.func('MachineModel.__init__'), ['lazy'])
     rd = ctx.func("MachineModel._get_cached")
     wr = ctx.func("MachineModel._write_in_cache")
     init = ctx.func("MachineModel.__init__")
